@@ -353,4 +353,48 @@ theorem bodyRun_valid (mt : UInt8) (id : Bytes) (hid : id.length = 8) (rs : List
     · exact ⟨hid, hc, hd r (by simp)⟩
     · exact ih (fun r' hr' => hd r' (by simp [hr'])) _ (Nat.mod_lt _ (by decide)) f hf
 
+/-! ## buffers handed to the writer -/
+
+/-- `Alloc.fresh` (a `make` per frame): the retaining writer's view stays equal to the copying
+writer's, and every reference it holds is a buffer of the heap. -/
+structure WState.Ok (s : WState) : Prop where
+  view : s.retained = s.copied
+  inRange : ∀ i ∈ s.kept, i < s.heap.length
+
+theorem sendFrame_fresh_copied (s : WState) (f : Bytes) : (sendFrame .fresh s f).copied = s.copied ++ [f] := by
+  simp [sendFrame]
+
+theorem sendFrame_fresh_ok (s : WState) (f : Bytes) (h : s.Ok) : (sendFrame .fresh s f).Ok := by
+  constructor
+  · have hv := h.view
+    simp only [sendFrame, WState.retained, List.map_append, List.map_cons, List.map_nil] at hv ⊢
+    rw [← hv]
+    congr 1
+    · apply List.map_congr_left
+      intro i hi
+      rw [List.getElem?_append_left (h.inRange i hi)]
+    · simp
+  · intro i hi
+    simp only [sendFrame, List.mem_append, List.mem_singleton, List.length_append, List.length_cons, List.length_nil] at hi ⊢
+    rcases hi with hi | hi
+    · have := h.inRange i hi; omega
+    · omega
+
+theorem foldl_sendFrame_fresh (fs : List Bytes) : ∀ s : WState, s.Ok →
+    (fs.foldl (sendFrame .fresh) s).Ok ∧ (fs.foldl (sendFrame .fresh) s).copied = s.copied ++ fs := by
+  induction fs with
+  | nil => intro s h; simp [h]
+  | cons f fs ih =>
+    intro s h
+    have := ih (sendFrame .fresh s f) (sendFrame_fresh_ok s f h)
+    simp only [List.foldl_cons]
+    refine ⟨this.1, ?_⟩
+    rw [this.2, sendFrame_fresh_copied]; simp
+
+theorem sendAll_fresh_retained (fs : List Bytes) : (sendAll .fresh fs).retained = fs := by
+  have h0 : ({} : WState).Ok := ⟨by simp [WState.retained], by simp⟩
+  have := foldl_sendFrame_fresh fs {} h0
+  unfold sendAll
+  rw [this.1.view, this.2]; simp
+
 end Martian.Marbl
